@@ -339,6 +339,8 @@ def eval_chi_t1(chk, sp) -> Tuple[Dict[str, Any], Dict[str, Any], int, Dict[str,
             try:
                 got = me.chi
             except _STUB_LIMITS as ex:
+                if isinstance(ex, AttributeError) and "'NoneType' object has no attribute" in str(ex):
+                    raise  # the analysed code itself dereferences a missing atom (None): it would raise on real objects too
                 raise Unknown(f"{type(ex).__name__}: {ex}")
             n += 1
             want = _expected_chi(kind, avail, sp)
@@ -652,6 +654,8 @@ def check_table_v2(chk, sp) -> Optional[Dict[str, Optional[Tuple[str, ...]]]]:
             try:
                 got = eval_table_v2(chk, ta, segments)
             except _STUB_LIMITS as ex:
+                if isinstance(ex, AttributeError) and "'NoneType' object has no attribute" in str(ex):
+                    raise  # the analysed code itself dereferences a missing atom (None): it would raise on real objects too
                 raise Unknown(f"{type(ex).__name__}: {ex}")
             if set(got) != set(want):
                 bad["backbone-atoms"][label] = f"rows for residues {sorted(got)} instead of {sorted(want)}"
